@@ -428,11 +428,14 @@ def build_random(seed, size):
         kw = {"p_" + n: v for n, v in params.items()}
         big = rng.choice([3, -2 ** 31 - 1, 2 ** 33 + 1, -7000000000, -2 ** 31])
         kw["a_big"] = big
+        given_src = rng.choice([None, None, "rtl/vendor/cell.v:42.3-57.6"])      # an attribute the back end also writes itself
+        if given_src is not None:
+            kw["a_src"] = given_src
         kw.update(a_black_box=1, i_I=a, i_J=Cat(a, Const(1, 1)), o_Q=q, io_P=IOPort(1, name=rng.choice(["pin", "a"])))
         nm = rng.choice(["u", "a", ""])
         _add_sub(mods[k], "" if nm in taken[k] else nm, Instance("ext_cell", **kw))
         ports.append(q)
-        foreign.append(["\\ext_cell", [["\\" + n, _wfc(v)] for n, v in params.items()], [["\\big", _wfc(big)], ["\\black_box", _wfc(1)]],
+        foreign.append(["\\ext_cell", [["\\" + n, _wfc(v)] for n, v in params.items()], [["\\big", _wfc(big)], ["\\black_box", _wfc(1)]] + ([["\\src", _wfc(given_src)]] if given_src is not None else []),
                         [["\\I", "i", len(a), []], ["\\J", "i", len(a) + 1, []], ["\\Q", "o", 3, []], ["\\P", "io", 1, []]]])
     if rng.random() < 0.5:
         # a pin group: one multi-bit IOPort whose bits are buffered one by one or in slices, with
